@@ -277,6 +277,19 @@ class TableRow(Mapping[str, object]):
         self.step()
         return next(self.it)
 
+    # `__iter__` drives the loop instead of iterating keys, so the Mapping mixin
+    # methods built on it must not be used when a tablerowloop object is treated
+    # as data (`for x in tablerowloop`, `tablerowloop == y`).
+
+    def keys(self) -> Any:  # noqa: D102
+        return sorted(self._keys)
+
+    def values(self) -> Any:  # noqa: D102
+        return [getattr(self, key) for key in sorted(self._keys)]
+
+    def items(self) -> Any:  # noqa: D102
+        return [(key, getattr(self, key)) for key in sorted(self._keys)]
+
     @property
     def index(self) -> int:
         """The 1-based index of the current loop iteration."""
